@@ -15,6 +15,7 @@
 (*   gout_y/x     reports them for the input / returned structure          *)
 (*   lat_ok       every coordinate was on the tick lattice                 *)
 (*   payload_ok   the same call on random reals moved bits the same way    *)
+(*   raised       the call raised an exception (then no result fields)     *)
 (***************************************************************************)
 EXTENDS Resize, IOUtils
 
@@ -95,8 +96,6 @@ IdentityClauses(r, name) ==
 PreTriples(r) == { << r.pre_y[k], r.pre_x[k], r.u[k], r.u[k] >> : k \in DOMAIN r.u }
 PostTriples(r) == { << r.post_y[k], r.post_x[k], r.post_d[k], r.post_n[k] >> : k \in DOMAIN r.post_d }
 AutoPadClauses(r) ==
-    IF r.raised THEN << Cl("apply-mask-succeeds", FALSE) >>
-    ELSE
     LET n == Len(r.u)
         lens == /\ Len(r.pre_y) = n /\ Len(r.pre_x) = n
                 /\ Len(r.post_y) = Len(r.post_d) /\ Len(r.post_x) = Len(r.post_d) /\ Len(r.post_n) = Len(r.post_d)
@@ -148,7 +147,9 @@ ZoomClauses(r) ==
 
 OddKernel(r) == r.kh % 2 = 1 /\ r.kw % 2 = 1 /\ r.kh >= 1 /\ r.kw >= 1
 
+\* an exception of the code under test on an input inside the property's domain is a rejection
 Clauses(r) ==
+    IF r.raised THEN << Cl("call-returns-a-result", FALSE) >> ELSE
     CASE r.api = "resize_array" -> ResizeArrayClauses(r, r.h2, r.w2, r.mpad = 0)
       [] r.api = "resize_mask" -> ResizeMaskClauses(r, r.h2, r.w2, r.pad = 0)
       [] r.api = "pad" ->
